@@ -35,7 +35,8 @@ def is_self_field(sp, body, term, idx):
 
 # ---- O1.1 ----------------------------------------------------------------------------------
 def envelope_types(run, f, rule="O1.1"):
-    mm = f.adts.get("MailboxMessage")
+    import anchors
+    mm = f.adts.get(anchors.names(f).mailbox)
     if not run.require(mm is not None, rule, "mailboxmessage-adt", "MailboxMessage not found", "found"):
         return
     for v in mm["variants"]:
@@ -145,8 +146,8 @@ def loop_handles_each_envelope_once(run, lc, rule="O1.4"):
     env_arm = None
     for bb, info in lc.switch_info.items():
         c = info["cls"]
-        if c and c[:2] == ("recv", "mailbox") and len(c) == 4 and "Envelope" in info["arms"]:
-            env_arm = info["arms"]["Envelope"]
+        if c and c[:2] == ("recv", "mailbox") and len(c) == 4 and __import__("anchors").names(lc.f).envelope in info["arms"]:
+            env_arm = info["arms"][__import__("anchors").names(lc.f).envelope]
     if not run.require(env_arm is not None, rule, "envelope-arm", "cannot find the Envelope arm of the mailbox match", "found"):
         return
     r = cfg.reachable_from(env_arm, avoid={h})
@@ -184,13 +185,14 @@ def loop_handles_each_envelope_once(run, lc, rule="O1.4"):
     for a in args:
         t = strip_wrappers(a)
         # field k of (downcast Envelope (payload Some of mailbox recv))
-        if t[0] == "field" and t[2][0] == "downcast" and t[2][1] == "Envelope":
+        if t[0] == "field" and t[2][0] == "downcast" and t[2][1] == __import__("anchors").names(lc.f).envelope:
             c = lc.classify(t[2][2])
             srcs.append((t[1], c))
         else:
             srcs.append(None)
-    mm = lc.f.adts["MailboxMessage"]["variants"]
-    env = [v for v in mm if v["name"] == "Envelope"][0]
+    _nm = __import__("anchors").names(lc.f)
+    mm = lc.f.adts[_nm.mailbox]["variants"]
+    env = [v for v in mm if v["name"] == _nm.envelope][0]
     names = [fl["name"] for fl in env["fields"]]
     got = {}
     for i, s in enumerate(srcs):
